@@ -15,7 +15,8 @@ def export(ctx):
     return d
 
 
-NUMF = {'none': {}, 'ge5': {'ge': 5}, 'gt5': {'gt': 5}, 'le5': {'le': 5}, 'lt5': {'lt': 5}, 'ge5le7': {'ge': 5, 'le': 7}}
+NUMF = {'none': {}, 'ge5': {'ge': 5}, 'gt5': {'gt': 5}, 'le5': {'le': 5}, 'lt5': {'lt': 5}, 'ge5le7': {'ge': 5, 'le': 7},
+        'ge5gt3': {'ge': 5, 'gt': 3}, 'le5lt7': {'le': 5, 'lt': 7}}
 STRF = {'minlen2': {'min_len': 2}, 'maxlen3': {'max_len': 3}, 'len2to3': {'min_len': 2, 'max_len': 3},
         'pattern': {'pattern': 'a+b'}, 'pattern_maxlen3': {'pattern': 'a+b', 'max_len': 3}}
 
@@ -38,7 +39,12 @@ def type_of(c):
     if g == 'date':
         from pytz import utc
         b = BOUND.replace(tzinfo=utc)
-        return {'k': 'prim', 'p': 'DateTime', 'facets': {c['facet']: {'dt': [b.year, b.month, b.day, 0, 0, 0, 0, 0]}}}
+        B = {'dt': [b.year, b.month, b.day, 0, 0, 0, 0, 0]}
+        if c['facet'] == 'gegt':
+            return {'k': 'prim', 'p': 'DateTime', 'facets': {'ge': B, 'gt': {'dt': [2019, 12, 31, 23, 0, 0, 0, 0]}}}
+        if c['facet'] == 'lelt':
+            return {'k': 'prim', 'p': 'DateTime', 'facets': {'le': B, 'lt': {'dt': [2020, 1, 1, 1, 0, 0, 0, 0]}}}
+        return {'k': 'prim', 'p': 'DateTime', 'facets': {c['facet']: B}}
     if g == 'lex':
         return {'k': 'prim', 'p': c['ty'], 'facets': {}}
     if g == 'objarr':
@@ -104,6 +110,8 @@ def positions_of(c, fam):
     pos = ['arg', 'field']
     if g in ('num', 'big', 'str', 'enum', 'date', 'lex'):
         pos.append('array')
+        pos.append('rep')
+        pos.append('repfield')
         if fam in ('xml', 'soap11', 'soap12'):
             pos.append('attr')
     return pos
@@ -118,6 +126,11 @@ def call_shape(c, pos, T, v, ok):
         return [('c', C, {'v': v, 'w': 1})]
     if pos == 'array':
         return [('a', {'k': 'arr', 'of': T}, [ok, v])]
+    if pos == 'rep':
+        return [('a', dict(T, max='inf'), [ok, v])]
+    if pos == 'repfield':
+        C = {'k': 'obj', 'name': 'C', 'fields': [['v', dict(T, max='inf')], ['w', {'k': 'prim', 'p': 'Integer'}]]}
+        return [('c', C, {'v': [ok, v], 'w': 1})]
     if pos == 'attr':
         C = {'k': 'obj', 'name': 'C', 'fields': [['v', {'k': 'attr', 'of': T}], ['w', {'k': 'prim', 'p': 'Integer'}]]}
         return [('c', C, {'v': v, 'w': 1})]
